@@ -28,7 +28,9 @@ RULE = ("configurations and diagrams from the C04 generators (non-square grids, 
         "lines / outside / diagonal / duplicated, scale 2^-10..2^10); per configuration 2-4 diagrams of 0-6 points; every law is "
         "evaluated on each; call styles: ndarray, list of lists, list/tuple/3-D array of diagrams, empty (0,2) array, [], collections "
         "with an empty first or middle diagram; n_jobs in {None,1,2,4,-1} (+3,8,16,-2 thorough) on collections of 1-17 diagrams and on "
-        "collections of 200-260 (thorough 400-1200) diagrams of 0-9 points. non-trivial = at least two diagrams with a "
+        "collections of 200-260 (thorough 400-1200) diagrams of 0-9 points; the flags skew / n_jobs by keyword and by position (public "
+        "signatures transform(pers_dgms, skew, n_jobs), fit(pers_dgms, skew), fit_transform(pers_dgms, skew)), birth-death and "
+        "pre-converted form through transform, fit_transform and fit; transform. non-trivial = at least two diagrams with a "
         "point of non-zero weight and kernel mass inside the grid; each kernel kind once with a 257-600-point diagram; distinct by digest of (configuration, diagrams)")
 ASSUMPTIONS = [
     "joblib.Parallel(n_jobs)(delayed(f)(x) for x in xs) returns [f(x) for x in xs] in order (its contract; exercised by the [T] schedule stream — verdict to rounding, bits as a correspondence signal — not provable about the runtime)",
@@ -169,15 +171,19 @@ def styles_exact(ctx):
                                                                enc(ws), enc(kk["width"]), enc(kk["height"]), enc(nj)))
         lines.append("img.ensure %s" % enc(inp))
         with np.errstate(all="ignore"):
-            st, v, _ = call(pim.transform, arg, skew=case["skew"], n_jobs=nj)
+            # every third call hands `skew` and `n_jobs` over by position (the public signature is
+            # transform(pers_dgms, skew=True, n_jobs=None)); a fixed schedule, so the recorded case says which
+            case = dict(case, positional=(it % 3 == 1))
+            st, v, _ = call_transform(pim, arg, case["skew"], nj, case["positional"])
         est, ev, _ = call(ensure, pim, arg)
+        ctx.count("flags_by_position" if case["positional"] else "flags_by_keyword")
         items.append((case, style, inp, nj, st, v, est, ev, res))
     answers = ask(lines)
     for idx, (case, style, inp, nj, st, v, est, ev, res) in enumerate(items):
         ans, eans = answers[2 * idx], answers[2 * idx + 1]
         if ans == "bad-op" or eans == "bad-op":
             raise common.HarnessError("driver rejected: %s" % lines[2 * idx][:300])
-        ctx.case({"op": "styles", "style": style, "input": inp, "n_jobs": nj, **{k: case[k] for k in ("birth_range", "pers_range", "pixel_size", "kernel", "weight", "skew")}},
+        ctx.case({"op": "styles", "style": style, "input": inp, "n_jobs": nj, **{k: case[k] for k in ("birth_range", "pers_range", "pixel_size", "kernel", "weight", "skew", "positional")}},
                  nontrivial=inp[0] == "coll" and len(inp[1]) >= 2, sample_every=41)
         ctx.count("style:" + style)
         code = canon(st, v)
@@ -203,6 +209,12 @@ def styles_exact(ctx):
                       {"correspondence": "img.coll", "line": lines[2 * idx][:1500], "code": code, "model": ans, "style": style})
         if n_found(ctx) > 5:
             return
+
+
+def call_transform(pim, arg, skew, nj, positional):
+    if positional:
+        return call(pim.transform, arg, skew, nj)
+    return call(pim.transform, arg, skew=skew, n_jobs=nj)
 
 
 def make_arg(style, inp):
@@ -358,6 +370,12 @@ def eval_laws(case, A, B, C, perm, mixed, with_fit):
     pre = np.column_stack([bd[:, 0], bd[:, 1] - bd[:, 0]])
     out["skew_consistency"] = allb(both(T(pim, bd, True), T(pim, pre, False), TOL * scA),
                                    both(T(pim, [bd, bd], True)[1], T(pim, [pre], False)[0], TOL * scA))
+    # ... whichever way the flag is handed over: `skew` is the second parameter of the public signatures
+    # transform(pers_dgms, skew=True, n_jobs=None), fit(pers_dgms, skew=True), fit_transform(pers_dgms, skew=True), so
+    # transform(d, False) IS the call "d is given in birth-persistence form"
+    with np.errstate(all="ignore"):
+        out["skew_positional"] = allb(both(pim.transform(bd, True), pim.transform(pre, False), TOL * scA),
+                                      both(pim.transform([bd], True, None)[0], pim.transform(pre, False, None), TOL * scA))
     # the argument is not modified (the conversion happens on a private copy): bytes of the caller's array, exact
     keep = arr(A); keep0 = keep.copy()
     T(pim, keep, True); T(pim, [keep], True)
@@ -375,6 +393,22 @@ def eval_laws(case, A, B, C, perm, mixed, with_fit):
             f2 = p2.transform([arr(A), arr(C)], skew=sk)
         out["fit_transform_is_fit_then_transform"] = allb(both(f1[0], f2[0], TOL * scA), both(f1[1], f2[1], TOL * scC)) \
             if len(f1) == len(f2) == 2 else (False, False)
+        # the same diagram in birth-death form and pre-converted (`pre` is exactly what the conversion of `bd` gives, so the
+        # fitted ranges coincide), the flag by keyword and by position, through fit_transform and through fit; transform
+        p3, p4, p5, p6 = imager(case), imager(case), imager(case), imager(case)
+        with np.errstate(all="ignore"):
+            g_kw = p3.fit_transform(bd, skew=True)
+            g_bd = p4.fit_transform(bd, True)
+            g_pre = p5.fit_transform(pre, False)
+            p6.fit(pre, False)
+            g_fit = p6.transform(pre, False)
+        same_geom = all(tuple(q.birth_range) == tuple(p3.birth_range) and tuple(q.pers_range) == tuple(p3.pers_range)
+                        and tuple(q.resolution) == tuple(p3.resolution) for q in (p4, p5, p6))
+        shapes = all(isinstance(g, np.ndarray) and g.shape == np.shape(g_kw) for g in (g_bd, g_pre, g_fit))
+        out["fitted_image_skew_forms"] = allb(both(g_bd, g_kw, TOL * scA), both(g_pre, g_kw, TOL * scA), both(g_fit, g_kw, TOL * scA)) \
+            if shapes else (False, False)
+        if shapes and out["fitted_image_skew_forms"][0] and not same_geom:
+            out["fitted_image_skew_forms"] = (True, False)          # same images, different reported geometry: correspondence only
     nt = sum(1 for ws in (wsA, wsB) if any(w != 0 for w in ws)) == 2 and float(np.abs(IA).sum()) > 0 and float(np.abs(IB).sum()) > 0
     return out, nt
 
@@ -444,6 +478,13 @@ def zero_weight_points(case, r):
             out.append([b, b + p] if case["skew"] else [b, p])
     elif w["kind"] == "user":
         out.append([0.0, 0.0])                                           # a*|0| + c*0^2 = 0
+    elif w["kind"] == "user_alias":
+        if c04.user_value(w, 0.0, 1.0) == 0.0:                           # weight = birth: a point born at 0
+            x = r.uniform(pr[0], pr[1])
+            out.append([0.0, x])
+        else:                                                            # weight = persistence: a diagonal point
+            b = r.uniform(br[0], br[1])
+            out.append([b, b] if case["skew"] else [b, 0.0])
     return out
 
 
@@ -550,7 +591,7 @@ def replay(ctx, rep):
         inp = c["input"]
         arg = make_arg(c.get("style"), inp)                 # the recorded call style (tuple / list of lists / 3-D array ...)
         with np.errstate(all="ignore"):
-            st, v, _ = call(pim.transform, arg, skew=c["skew"], n_jobs=c.get("n_jobs"))
+            st, v, _ = call_transform(pim, arg, c["skew"], c.get("n_jobs"), bool(c.get("positional")))
         code = canon(st, v)
         fail = style_laws(c, inp, code, res, c.get("n_jobs"))
         print("style:", c.get("style"), "| code:", code if isinstance(code, str) else code[0], "| law check:", fail or "holds")
